@@ -7,11 +7,12 @@
                           written; the writes that follow ask the gate with flags None, which a call allowed with any
                           flags passes.  Undecorated: Output.write(flags=flags), nothing recorded at all.
      overwrite(text)      clear(); write_line(text)  - no flags: the gate is asked with None
-     clear(n)             decorated: NO gate call of its own.  It cuts _content and _lines first; the control codes and
-                          the re-printed newer sections then go through Output.write (flags None), which is where the
-                          gate refuses them.  So a refused clear is silent but NOT invisible: the content is gone from
-                          the record while it stays on the screen (finding, see gstep / leaks below).
+     clear(n)             decorated: after the early return for an empty record, `if not self._may_write(None): return`
+                          BEFORE _content / _lines are touched (since /repo a112510; before that a refused clear cut
+                          the record while the screen kept the rows - finding, repaired); the control codes and the
+                          re-printed newer sections then go through Output.write (flags None), which passes.
                           Undecorated: returns at once.
+   So EVERY call either is refused and does nothing, or performs its Section.v operation.
    Definitions only; Section.v and Gate.v are used as they are. *)
 From Clikit Require Import Base.Prelude Base.Res Base.Term Model.Conv Model.Markup Model.Gate Model.Section.
 From Clikit Require Model.OutputM.
@@ -76,9 +77,9 @@ Definition sec_step (ansi : bool) (w : nat) (st : secs) (f : formatter) (o : sop
 
 Definition gres : Type := secs * gates * formatter * list emit.
 
-(* WHAT C10 ASKS FOR: the Section.v step iff the gate allows the call, the identity otherwise (no emit, no content
-   change, no row-count change, the formatter not even consulted) *)
-Definition gstep_ideal (ansi : bool) (w : nat) (st : secs) (gs : gates) (f : formatter) (o : gop) : res gres :=
+(* the step of the code, which is what C10 asks for: the Section.v step iff the gate allows the call, the identity
+   otherwise (no emit, no content change, no row-count change, the formatter not even consulted) *)
+Definition gstep (ansi : bool) (w : nat) (st : secs) (gs : gates) (f : formatter) (o : gop) : res gres :=
   match sop_of o with
   | None => Ok (st, gates_step gs o, f, [])
   | Some so =>
@@ -87,40 +88,6 @@ Definition gstep_ideal (ansi : bool) (w : nat) (st : secs) (gs : gates) (f : for
     else Ok (st, gs, f, [])
   end.
 
-(* WHAT THE CODE DOES when a decorated clear is refused: SectionOutput.clear cuts the record (and, for a partial
-   clear, runs remove_format over the removed lines) before any gate is asked; all its writes are then refused *)
-Definition clear_refused (w : nat) (st : secs) (f : formatter) (i : nat) (n : option nat) : res (secs * formatter) :=
-  match nth_error st i with
-  | None => Ok (st, f)
-  | Some s =>
-    match sc_content s with
-    | [] => Ok (st, f)
-    | _ =>
-      do kr <- match n with
-               | Some (S k) => do m <- measure w f (lastn (S k) (sc_content s)) 0;
-                               Ok (droplast (S k) (sc_content s), snd m, fst m)
-               | _ => Ok ([], sc_lines s, f)
-               end;
-      let '(keep, rows_cleared, f1) := kr in
-      Ok (set_sec st i {| sc_content := keep; sc_lines := sc_lines s - rows_cleared; sc_indent := sc_indent s |}, f1)
-    end
-  end.
-
-(* the calls whose refusal leaves a trace in the code: clear and overwrite (= clear(); write_line) of a decorated
-   section.  A refused write never does. *)
-Definition is_clear (o : gop) : bool := match o with GClear _ _ | GOverwrite _ _ => true | _ => false end.
-Definition leaks (ansi : bool) (gs : gates) (o : gop) : bool := ansi && is_clear o && negb (allowed gs o).
-
-(* the step of the code: gstep_ideal, except for a refused decorated clear / overwrite *)
-Definition gstep (ansi : bool) (w : nat) (st : secs) (gs : gates) (f : formatter) (o : gop) : res gres :=
-  if leaks ansi gs o
-  then match o with
-       | GClear i n => do a <- clear_refused w st f i n; Ok (fst a, gs, snd a, [])
-       | GOverwrite i _ => do a <- clear_refused w st f i None; Ok (fst a, gs, snd a, [])   (* write_line refused too *)
-       | _ => Ok (st, gs, f, [])
-       end
-  else gstep_ideal ansi w st gs f o.
-
 (* a run stops at the first call that raises; the stream is the concatenation of what the calls emit *)
 Fixpoint grun (ansi : bool) (w : nat) (st : secs) (gs : gates) (f : formatter) (ops : list gop) : res gres :=
   match ops with
@@ -128,16 +95,6 @@ Fixpoint grun (ansi : bool) (w : nat) (st : secs) (gs : gates) (f : formatter) (
   | o :: r =>
     do a <- gstep ansi w st gs f o;
     do b <- grun ansi w (fst (fst (fst a))) (snd (fst (fst a))) (snd (fst a)) r;
-    Ok (fst (fst (fst b)), snd (fst (fst b)), snd (fst b), snd a ++ snd b)
-  end.
-
-(* the run C10 asks for: every refused call is the identity *)
-Fixpoint grun_ideal (ansi : bool) (w : nat) (st : secs) (gs : gates) (f : formatter) (ops : list gop) : res gres :=
-  match ops with
-  | [] => Ok (st, gs, f, [])
-  | o :: r =>
-    do a <- gstep_ideal ansi w st gs f o;
-    do b <- grun_ideal ansi w (fst (fst (fst a))) (snd (fst (fst a))) (snd (fst a)) r;
     Ok (fst (fst (fst b)), snd (fst (fst b)), snd (fst b), snd a ++ snd b)
   end.
 
@@ -157,13 +114,6 @@ Fixpoint erase (gs : gates) (ops : list gop) : list sop :=
   | o :: r => (match sop_of o with Some so => if allowed gs o then [so] else [] | None => [] end)
               ++ erase (gates_step gs o) r
   end.
-(* no clear / overwrite of a decorated section is refused anywhere in the sequence (a check that can be run) *)
-Fixpoint leakfree (ansi : bool) (gs : gates) (ops : list gop) : bool :=
-  match ops with
-  | [] => true
-  | o :: r => negb (leaks ansi gs o) && leakfree ansi (gates_step gs o) r
-  end.
-
 (* groups of calls, the bytes of each group apart (the harness observes the stream between the groups) *)
 Fixpoint grun_groups (ansi : bool) (w : nat) (st : secs) (gs : gates) (f : formatter) (groups : list (list gop))
   : res (secs * gates * formatter * list (list emit)) :=
@@ -196,7 +146,7 @@ Definition dec_gop (s : sexp) : option gop :=
 (* the driver's entry for C10.  Everything run_C10 answers, and next to it the two-section sequences:
    request  (98 ansi? forced? width styles groups)  - groups of calls on sections of one output, created on the way
    answer   (0 (emits of each group) (content lines, row count, indentation, quiet, verbosity of every section)
-               (the terminal after all emits) leakfree?)                                                        *)
+               (the terminal after all emits))                                                                  *)
 Definition run_C10S (s : sexp) : sexp :=
   match s with
   | L [A 98%Z; ansi; forced; w; set; groups] =>
@@ -210,8 +160,7 @@ Definition run_C10S (s : sexp) : sexp :=
              sList (fun x : sec * gate =>
                       L [sList sStr (sc_content (fst x)); A (Z.of_nat (sc_lines (fst x))); A (Z.of_nat (sc_indent (fst x)));
                          sB (g_quiet (snd x)); A (g_verb (snd x))]) (combine st gs);
-             enc_term (feed (N.to_nat w) term_init (concat ess));
-             sB (leakfree ansi [] (concat groups))]
+             enc_term (feed (N.to_nat w) term_init (concat ess))]
         | Err k => sErr k
         end
       | Err k => sErr k
